@@ -100,6 +100,7 @@ func cmdCheck(args []string) int {
 	}
 	for _, j := range jobs {
 		j.Property = prop
+		j.Filter = def.Filter
 	}
 	timeout := 20000
 	if tier == "thorough" {
@@ -109,6 +110,15 @@ func cmdCheck(args []string) int {
 		timeout, _ = strconv.Atoi(s)
 	}
 	s := NewSched(timeout)
+	s.budget = 420 * time.Second
+	if tier == "thorough" {
+		s.budget = 3 * time.Hour
+	}
+	if v := os.Getenv("VERIF_BUDGET_S"); v != "" {
+		if n, err := strconv.Atoi(v); err == nil {
+			s.budget = time.Duration(n) * time.Second
+		}
+	}
 	s.runAll(jobs, workers)
 	exploreWall := time.Since(t0)
 
@@ -155,7 +165,7 @@ func cmdCheck(args []string) int {
 		if r.Truncated {
 			inconclusive = append(inconclusive, j.ID+": path budget exhausted")
 		}
-		if r.Paths == 0 && !s.stoppedEarly {
+		if r.Paths == 0 && !s.stoppedEarly && !s.timedOut {
 			inconclusive = append(inconclusive, j.ID+": no path executed")
 		}
 		for i := range r.Failures {
@@ -172,7 +182,7 @@ func cmdCheck(args []string) int {
 			all = append(all, tapeRef{w, j, nil})
 		}
 		// vacuity: every job must reach its end label at least once unless it reported failures
-		if len(r.Reached) == 0 && len(r.Failures) == 0 && len(r.KnownHits) == 0 && !s.stoppedEarly {
+		if len(r.Reached) == 0 && len(r.Failures) == 0 && len(r.KnownHits) == 0 && !s.stoppedEarly && !s.timedOut {
 			inconclusive = append(inconclusive, j.ID+": vacuous (no reach label was hit)")
 		}
 	}
@@ -438,6 +448,9 @@ func cmdCheck(args []string) int {
 	if s.stoppedEarly {
 		fmt.Printf("NOTE: exploration stopped early after %d counterexamples\n", s.failures)
 	}
+	if s.timedOut {
+		inconclusive = append(inconclusive, fmt.Sprintf("exploration budget of %v used up before all jobs finished", s.budget))
+	}
 	for id, n := range otherProp {
 		fmt.Printf("NOTE: %d failure(s) of assertion %q were found; it belongs to another property's check and is reported there\n", n, id)
 	}
@@ -500,7 +513,7 @@ func cmdCheck(args []string) int {
 			"bounds":                        def.Bounds(tier),
 			"outside_bounds":                def.Outside,
 			"queries":                       map[string]interface{}{"total": tot.Solver.Queries, "sat": tot.Solver.Sat, "unsat": tot.Solver.Unsat, "unknown": tot.Solver.Unknown, "errors": tot.Solver.Errors},
-			"solver":                        "z3 4.8.12 via z3 -in (incremental, push/pop)",
+			"solver":                        "z3 5.1.0 (z3-new -in, incremental push/pop, 300 ms first attempt) with fallback to fresh non-incremental z3 5.1.0 / z3 4.8.12 processes under the tier timeout",
 			"solver_s":                      round2(tot.Solver.Time.Seconds()),
 			"max_query_s":                   round2(tot.Solver.MaxQuery.Seconds()),
 			"explore_wall_s":                round2(exploreWall.Seconds()),
